@@ -45,12 +45,16 @@ func (b *byteBlock) interval() interval.Interval[model.Addr] {
 func (b byteBlock) index(addr model.Addr) int { return int(addr - b.begin) }
 
 func NewBytes(blocks []ByteBlock) (*Bytes, error) {
-	bs := make([]byteBlock, len(blocks))
-	for i, b := range blocks {
+	bs := make([]byteBlock, 0, len(blocks))
+	for _, b := range blocks {
 		bytes := b.Bytes()
+		if len(bytes) == 0 {
+			continue
+		}
+
 		bytesCopy := make([]byte, len(bytes))
 		copy(bytesCopy, b.Bytes())
-		bs[i] = byteBlock{begin: b.Begin(), bytes: bytesCopy}
+		bs = append(bs, byteBlock{begin: b.Begin(), bytes: bytesCopy})
 	}
 
 	sort.Slice(bs, func(i, j int) bool { return bs[i].begin < bs[j].begin })
